@@ -57,6 +57,20 @@ DESC_SRC = ['class Desc(object):',
             '        if obj is None:',
             '            return self',
             '        return self.f(obj)']
+# descriptor classes that INHERIT __get__ (one and two levels up): as much descriptors as Desc
+DESC1_SRC = ['class Desc1(Desc):',
+             '    pass']
+DESC2_SRC = ['class Desc2(Desc1):',
+             '    def __init__(self, f):',
+             '        Desc1.__init__(self, f)',
+             '        self.label = f.__name__']
+DECO_LEVEL = {'Desc': 0, 'Desc1': 1, 'Desc2': 2}
+# value a getter may return instead of a literal: an instance of a source class carrying the site id
+RET_SRC = ['class Ret(object):',
+           '    def __init__(self, site):',
+           '        self.site = site',
+           '    def ret_meth(self):',
+           '        pass']
 
 
 # ------------------------------------------------------------------------------------------------
@@ -150,6 +164,10 @@ def gen_spec(rng, max_classes=7):
             else:
                 kind = 'var_str'
             m = {'name': name, 'kind': kind, 'assigns': []}
+            if kind == 'desc':
+                m['deco'] = rng.choice(['Desc', 'Desc1', 'Desc1', 'Desc2'])
+            if kind in ('property', 'desc'):
+                m['ret'] = rng.choice(['lit', 'obj'])
             if kind in ('plain', 'property', 'desc'):
                 for _a in range(rng.choice([0, 0, 1, 1, 2, 3])):
                     attr = rng.choice(SELF_NAMES)
@@ -170,7 +188,8 @@ def gen_spec(rng, max_classes=7):
                 key = '%d:%d' % (c['module'], b)
                 if key not in refs:
                     refs[key] = rng.choice(import_forms(modules, c['module'], classes[b - NBUILTIN]['module']))
-    return {'modules': modules, 'classes': classes, 'refs': refs, 'reexport_star': rng.random() < 0.5}
+    return {'modules': modules, 'classes': classes, 'refs': refs, 'reexport_star': rng.random() < 0.5,
+            'desc_layout': rng.choice(['local', 'base_remote', 'all_remote'])}
 
 
 def import_forms(modules, frm, to):
@@ -251,9 +270,40 @@ def render(spec):
                         done.add(stmt)
                         lines.append(stmt)
                         names.extend(bound_names(stmt, spec, R))
-        if any(m['kind'] == 'desc' for c in mine for m in c['members']):
-            lines.extend(DESC_SRC)
-            names.append(('Desc', None))
+        # descriptor classes: defined here, or (desc_layout) the base / the whole chain lives in module 0
+        layout = spec.get('desc_layout', 'local')
+        used = lambda cs: {m.get('deco', 'Desc') for c in cs for m in c['members'] if m['kind'] == 'desc'}
+        need = used(mine)
+        define, imports = set(), []
+        if layout == 'local' or len(modules) == 1:
+            define = set(need)
+        elif mi == 0:
+            everyone = used(classes)
+            define = set(need) | ({'Desc'} if everyone and layout == 'base_remote' else set()) | \
+                (everyone if layout == 'all_remote' else set())
+        elif layout == 'base_remote':
+            define = need - {'Desc'}
+            if need:
+                imports = ['Desc']
+        else:
+            imports = sorted(need)
+        if define:
+            top = max(DECO_LEVEL[d] for d in define)
+            if layout == 'base_remote' and mi > 0:
+                chain = [('Desc1', DESC1_SRC), ('Desc2', DESC2_SRC)][:top]
+            else:
+                chain = [('Desc', DESC_SRC), ('Desc1', DESC1_SRC), ('Desc2', DESC2_SRC)][:top + 1]
+        else:
+            chain = []
+        if imports:
+            lines.append('from %s import %s' % (modules[0], ', '.join(imports)))
+            names.extend((n, None) for n in imports)
+        for dn, dsrc in chain:
+            lines.extend(dsrc)
+            names.append((dn, None))
+        if any(m.get('ret') == 'obj' for c in mine for m in c['members']):
+            lines.extend(RET_SRC)
+            names.append(('Ret', None))
         for c in mine:
             cid = c['id']
             bexprs = []
@@ -286,7 +336,7 @@ def render(spec):
                 if kind == 'property':
                     lines.append('    @property')
                 elif kind == 'desc':
-                    lines.append('    @Desc')
+                    lines.append('    @' + m.get('deco', 'Desc'))
                 elif kind == 'classmethod':
                     lines.append('    @classmethod')
                     arg = 'cls'
@@ -322,7 +372,9 @@ def render(spec):
                     R.placeholders[cid].append((mi, len(lines), 'self', 'self'))
                 elif kind == 'classmethod':
                     R.placeholders[cid].append((mi, len(lines), 'cls', 'cls'))
-                if kind in ('property', 'desc') or (m['name'] != '__init__' and kind == 'plain' and s % 2 == 0):
+                if kind in ('property', 'desc') and m.get('ret') == 'obj':
+                    lines.append('        return Ret(%d)' % (SITE_LIT0 + s))
+                elif kind in ('property', 'desc') or (m['name'] != '__init__' and kind == 'plain' and s % 2 == 0):
                     lines.append('        return %d' % (SITE_LIT0 + s))
             R.makers[cid] = {}
             if c['maker']:
@@ -396,7 +448,9 @@ def ident(v):
         v = v.fget
     if isinstance(v, (classmethod, staticmethod)):
         v = v.__func__
-    if type(v).__name__ == 'Desc' and hasattr(v, 'f'):
+    if type(v).__name__ == 'Ret' and hasattr(v, 'site'):
+        return ['lit', v.site]
+    if type(v).__name__ in ('Desc', 'Desc1', 'Desc2') and hasattr(v, 'f'):
         v = v.f
     f = getattr(v, '__func__', v)
     code = getattr(f, '__code__', None)
@@ -439,7 +493,7 @@ for cid, mname, cname in req['classes']:
                 f = v
             elif isinstance(v, property):
                 f = v.fget
-            elif type(v).__name__ == 'Desc':
+            elif type(v).__name__ in ('Desc', 'Desc1', 'Desc2'):
                 f = v.f
             if f is not None:
                 f(inst)
@@ -449,8 +503,17 @@ for cid, mname, cname in req['classes']:
         if is_src(k):
             src_names.update(n for n in vars(k) if n not in AUTO)
     rec['src_class_names'] = sorted(src_names)
-    clk, ilk = {}, {}
+    clk, ilk, values = {}, {}, {}
     for x in req['names']:
+        try:
+            val = getattr(inst, x)
+            if type(val).__name__ == 'Ret' and is_src(type(val)):
+                # what Python finds on the VALUE of inst.x: its source-defined attributes and one definition
+                code = val.ret_meth.__func__.__code__
+                values[x] = {'names': sorted(n for n in dir(val) if not (n.startswith('__') and n.endswith('__'))),
+                             'meth': [os.path.relpath(os.path.realpath(code.co_filename), proj), code.co_firstlineno]}
+        except AttributeError:
+            pass
         try:
             clk[x] = ident(getattr(cls, x))
         except AttributeError:
@@ -462,6 +525,7 @@ for cid, mname, cname in req['classes']:
             ilk[x] = None
     rec['cls_lookup'] = clk
     rec['inst_lookup'] = ilk
+    rec['values'] = values
     out['classes'][str(cid)] = rec
 json.dump(out, sys.stdout)
 '''
@@ -677,24 +741,37 @@ def plan_queries(spec, R, oracle, rng, thorough):
                 q = make_query(R, spec, reach, 'class', x, 'location')
                 q.update({'table': 'mod', 'cid': mi, 'attr': x, 'via': via, 'expr': 'module'})
                 qs.append(q)
-    # literal reached through an attribute: `C.K.|`, `C().x.|`
-    lits = []
+    # value of an attribute: literal class variable / instance slot (`C.K.|`, `C().x.|`) and what a property or
+    # descriptor getter returns (`C().prop.|`, and go-to-definition behind it `C().prop.ret_me|th`)
+    vals, getters = [], []
     for c in spec['classes']:
         orc = oracle['classes'][str(c['id'])]
         for x, idn in sorted(orc['cls_lookup'].items()):
             if idn and idn[0] == 'lit':
-                lits.append((c['id'], 'class', x, idn[1]))
+                vals.append((c['id'], 'class', x, idn[1]))
         for x, v in sorted(orc['inst_lookup'].items()):
-            if v and v[1][0] == 'lit':          # instance slot, class variable, or property / descriptor getter value
-                lits.append((c['id'], 'inst', x, v[1][1]))
-    for cid, form, x, lit in (lits if thorough else rng.sample(lits, min(4, len(lits)))):
+            if v and v[1][0] == 'lit':
+                is_getter = not v[0] and (orc['cls_lookup'].get(x) or [None])[0] == 'code'
+                (getters if is_getter else vals).append((c['id'], 'inst', x, v[1][1]))
+    if not thorough:
+        vals = rng.sample(vals, min(3, len(vals)))
+        getters = rng.sample(getters, min(8, len(getters)))
+    for cid, form, x, lit in vals + getters:
         reach = rng.choice(reach_forms(spec, R, cid, 'class'))
-        q = make_query(R, spec, reach, form, x, 'location')
-        lines = q['source'].rstrip('\n').split('\n')           # `expr.attr` -> `expr.attr.|`
-        lines[-1] = lines[-1] + '.'
+        base = make_query(R, spec, reach, form, x, 'location')
+        lines = base['source'].rstrip('\n').split('\n')
+        tail = lines[-1]
+        q = dict(base)
+        lines[-1] = tail + '.'                                   # `expr.attr` -> `expr.attr.|`
         q.update({'op': 'assist', 'source': '\n'.join(lines) + '\n', 'pos': [len(lines), len(lines[-1])],
-                  'table': 'lit', 'cid': cid, 'attr': x, 'lit': lit, 'via': reach['form'], 'expr': 'literal_' + form})
+                  'table': 'lit', 'cid': cid, 'attr': x, 'lit': lit, 'via': reach['form'], 'expr': 'value_' + form})
         qs.append(q)
+        if x in oracle['classes'][str(cid)].get('values', {}):
+            q = dict(base)
+            lines[-1] = tail + '.ret_meth'                       # `expr.attr.ret_me|th`
+            q.update({'op': 'location', 'source': '\n'.join(lines) + '\n', 'pos': [len(lines), len(tail) + 5],
+                      'table': 'lit', 'cid': cid, 'attr': x, 'lit': lit, 'via': reach['form'], 'expr': 'value_' + form})
+            qs.append(q)
     return qs
 
 
@@ -963,10 +1040,22 @@ def direct_failures(rec):
             bad.append((qi, 'supp raised %s' % res))
             continue
         if q['table'] == 'lit':
-            # the value is an int (`x = 1007`) or a str (`x = 's1007'`) literal
-            got = set(res)
-            if not (set(dir(1)) <= got or set(dir('')) <= got):
-                bad.append((qi, 'proposals on a literal attribute value miss attributes of int/str: %s' % sorted(got)[:8]))
+            val = rec['oracle']['classes'][str(q['cid'])].get('values', {}).get(q['attr']) if q['expr'] == 'value_inst' else None
+            if q['op'] == 'assist':
+                got = set(res)
+                if val is not None:
+                    # CPython evaluated inst.attr to an instance of a source class: its attributes must be proposed
+                    miss = sorted(set(val['names']) - got)
+                    if miss:
+                        bad.append((qi, 'value of %s is an instance whose attributes %s are not proposed' % (q['attr'], miss)))
+                elif not (set(dir(1)) <= got or set(dir('')) <= got):
+                    # the value is an int (`x = 1007`) or a str (`x = 's1007'`) literal
+                    bad.append((qi, 'proposals on the literal value of %s miss attributes of int/str: %s' % (q['attr'], sorted(got)[:8])))
+            else:
+                text = rec['files'][val['meth'][0]].split('\n')[val['meth'][1] - 1]
+                exp = [val['meth'][0], val['meth'][1], text.index('def ret_meth') + 4]
+                if len(res) != 1 or res[-1] != [exp]:
+                    bad.append((qi, 'definition behind the value of %s: Python finds ret_meth at %s, supp lands on %s' % (q['attr'], exp, res)))
             continue
         if q['table'] == 'mod':
             mname = spec['modules'][q['cid']]
